@@ -262,6 +262,36 @@ def check_r064(fx, rep):
         # the values come from execution_result.all_values()
         src = any((F.callee_def(c) or "").endswith("ExecutionResult::all_values") for c, _ in F.calls(root))
         rep.oblige(src, "R06.4", "lift-source", F.loc(lf["span"]), "the lifting stage does not start from all values of the execution result")
+    if lf is not None:
+        root_l = lf["hir"]["value"]
+        runs = [(c, cps) for c, cps in F.calls(root_l) if (F.callee_def(c) or "").endswith("LiftingPasses::run") or ((F.callee_def(c) or "").endswith("::run") and "lift" in (F.callee_def(c) or ""))]
+        rep.anchor("R06.4", bool(runs), "the call that runs the lifting passes on a value")
+        for c, cps in runs:
+            loop_seen = False
+            conditional = []
+            for anc, key in cps:
+                if anc.get("k") == "Loop":
+                    loop_seen = True
+                    continue
+                if loop_seen and anc.get("k") in ("If", "Match") and key in ("then", "else", "arms") and not anc.get("exp") and "Desugar" not in str(anc.get("source", "")):
+                    conditional.append(anc)
+            nk = T._span_key(c["span"])
+            skips = []
+            lp = next((anc for anc, key in cps if anc.get("k") == "Loop"), None)
+            if lp is not None:
+                for x, xps in F.walk(lp["body"]):
+                    if x.get("k") == "Continue" and not x.get("exp") and T._span_key(x["span"])[1] < nk[1]:
+                        skips.append(x)
+                    if x.get("k") == "If" and not x.get("exp") and T._span_key(x["span"])[2] <= nk[1] and any(y.get("k") in ("Continue",) for y, _ in F.walk(x["then"])):
+                        skips.append(x)
+            rep.oblige(
+                not conditional and not skips,
+                "R06.4",
+                "lifting-unconditional",
+                F.loc(c["span"]),
+                "a value can reach registration without having been through the lifting passes (the call is conditional or can be skipped): its storage key is never wrapped as a slot, so a literal key loses its layout row",
+                sample={"rule": "R06.4", "lifting_call_unconditional": not conditional and not skips},
+            )
     av = fx.body("tc::TypeChecker::assign_vars")
     if rep.anchor("R06.4", av is not None, "TypeChecker::assign_vars"):
         root = av["hir"]["value"]
